@@ -437,6 +437,8 @@ def run_seeds(prop, tier, seeds, deadline=None):
     """Worker entry point."""
     gc.disable()
     agg = Agg()
+    from . import sweeps
+    sweeps.DEADLINE = deadline
     for n, seed in enumerate(seeds):
         if deadline is not None and time.time() > deadline:
             agg.stats["seeds-skipped-deadline"] = len(seeds) - n
